@@ -15,6 +15,13 @@ use serde_json::{Value, json};
 
 pub const VERIF_ROOT: &str = "/verif";
 
+/// Where evidence and replay files go: /verif, unless VERIF_OUT redirects them (used when the
+/// monitors are tried against a seeded defect in a scratch copy, so that the committed evidence
+/// is not overwritten).
+pub fn out_root() -> PathBuf {
+    std::env::var("VERIF_OUT").ok().map(PathBuf::from).unwrap_or_else(|| PathBuf::from(VERIF_ROOT))
+}
+
 // ---------------------------------------------------------------------------------------------
 // PRNG (xoshiro256** seeded through SplitMix64)
 // ---------------------------------------------------------------------------------------------
@@ -351,7 +358,7 @@ impl Report {
             return true;
         }
         let n = self.replay_counter.fetch_add(1, Ordering::Relaxed);
-        let dir = Path::new(VERIF_ROOT).join("replays");
+        let dir = out_root().join("replays");
         let _ = fs::create_dir_all(&dir);
         let path = dir.join(format!("{}-{}-{}.json", self.prop, ctx.seed, n));
         let body = json!({
@@ -420,7 +427,7 @@ impl Report {
             "wall_s": (ctx.elapsed() * 100.0).round() / 100.0,
             "violations": g.violations.len(),
         });
-        let dir = Path::new(VERIF_ROOT).join("evidence");
+        let dir = out_root().join("evidence");
         let _ = fs::create_dir_all(&dir);
         let path = dir.join(format!("{}.json", self.prop));
         fs::write(&path, serde_json::to_string_pretty(&ev).unwrap()).expect("write evidence");
